@@ -20,7 +20,7 @@ RULE = ('P: all FILE-LISTs of <= 2 entries over {a, b, d, d/a, d/e/a} x {file, f
         '(/abs, ../x, d/../x, ..), all lists of 3 over a reduced alphabet (thorough: 3 over the full one), each as `dir d = L` and as `dir d += L` onto a pre-populated directory holding a file, '
         'a directory, and symbolic links (to a file, to a directory, dangling); M: every tree of <= 4 (thorough 5) nodes from a 14-item universe (regular files empty / non-empty, directories, symbolic links to '
         'file / directory / nothing, nested to depth 3) x ~170 files-matcher expressions (is-empty, num-files, matches [-full] with and without per-file matchers, every/any file, -selection, -with-pruned (also nested), '
-        '!, &&, ||) x {direct, -recursive, -min-depth a, -max-depth b, both}; non-trivial = the list has a clash / append / nesting (P) or the expected verdict differs between the direct and some recursive model (M)')
+        '!, &&, ||) x {direct, -recursive with every (min-depth, max-depth) in {absent,0..3}^2 (quick: {absent,0..2}^2)}; non-trivial = the list has a clash / append / nesting (P) or the expected verdict differs between the direct and some recursive model (M)')
 ASSUMPTIONS = [
     'uid 0: permission-related failures cannot occur',
     'after a failing population the partial tree is not compared (the statement only requires HARD_ERROR and that nothing outside the populated directory is created)',
@@ -127,7 +127,7 @@ def cases(tier):
     nt = len(trees(tier))
     for ti in range(nt):
         for oi in range(len(OPTIONS)):
-            if tier == 'quick' and oi in (3, 5, 6):
+            if tier == 'quick' and oi not in QUICK_OPTIONS:
                 continue
             yield ('M', ti, oi)
 
@@ -339,8 +339,22 @@ def trees(tier):
     return out
 
 
-OPTIONS = [{}, {'recursive': True}, {'recursive': True, 'min_depth': 1}, {'recursive': True, 'max_depth': 0}, {'recursive': True, 'max_depth': 1},
-           {'recursive': True, 'min_depth': 1, 'max_depth': 1}, {'recursive': True, 'min_depth': 2}, {'recursive': True, 'min_depth': 1, 'max_depth': 2}]
+def _options():
+    out = [{}]
+    for lo in (None, 0, 1, 2, 3):
+        for hi in (None, 0, 1, 2, 3):
+            o = {'recursive': True}
+            if lo is not None:
+                o['min_depth'] = lo
+            if hi is not None:
+                o['max_depth'] = hi
+            out.append(o)
+    return out
+
+
+# the direct model + the full square of (min-depth, max-depth) in {absent, 0..3}^2: equal limits (one level), min > max (empty interval), limits beyond the tree
+OPTIONS = _options()
+QUICK_OPTIONS = [i for i, o in enumerate(OPTIONS) if o.get('min_depth', 0) <= 2 and o.get('max_depth', 0) <= 2]
 
 G = lambda s: ('glob', s)
 RX = lambda s: ('rx', s)
@@ -495,6 +509,6 @@ def _match(res, case):
             pass
     if partial:
         res.nontrivial += 1
-    if not res.samples and len(t) == 4 and oi == 1:
+    if not res.samples and len(t) == 4 and opts == {'recursive': True}:
         res.samples.append({'tree': {k: list(v) for k, v in t.items()}, 'options': opts, 'assertion': asserts[-1]})
     return res
